@@ -181,6 +181,18 @@ Theorem C11_linker_copy_then_any_operations K s i r es :
      forall n, view n (sh (run_hevents K s1 es)) (VR r') = view n (sh s1) (VR r')).
 Proof. exact (linker_copy_independent_ops K s i r es). Qed.
 
+(* siblings and the class at operation level: two instances created at any point, then ANY history of operations / copies /
+   instantiations: every root that receives no operation - the class, either sibling, anything else - keeps its state at every
+   depth (holds since fix 57a6922; before it `check` / `endogenous` were the class's own lists: ex_pre_fix_init_shares) *)
+Theorem C11_siblings_then_any_operations K s ci a1 a2 es :
+  roots_ok s -> event_ok (EInit ci a1) = true -> event_ok (EInit ci a2) = true -> forallb hevent_ok es = true ->
+  let s2 := run_events K s [EInit ci a1; EInit ci a2] in
+  roots_ok s2 /\ roots_ok (run_hevents K s2 es) /\
+  forall j rj n, nth_error (sroots s2) j = Some rj ->
+    (forall e, In e es -> hreceiver e <> Some j) ->
+    view n (sh (run_hevents K s2 es)) (VR rj) = view n (sh s2) (VR rj).
+Proof. exact (siblings_independent_ops K s ci a1 a2 es). Qed.
+
 (* hypotheses satisfiable: a traced model, its copy, then list mutation / add_variable / lags / traced two-pass solve / a new
    sibling / a class mutation: nothing is shared afterwards *)
 Theorem C11_operation_history_example :
@@ -252,3 +264,4 @@ Print Assumptions C11_linker_copy_observationally_equal.
 Print Assumptions C11_linker_copy_observationally_equal_example.
 Print Assumptions C11_linker_copy_submodels_observationally_equal.
 Print Assumptions C11_path_footprint.
+Print Assumptions C11_siblings_then_any_operations.
